@@ -569,6 +569,7 @@ def c14_judge(group, tag):
             info[name].setdefault("wellformed", True)
         info["junit"].setdefault("status_mismatch", 0)
         info["junit"].setdefault("totals_mismatch", 0)
+        info["junit"].setdefault("message_mismatch", 0)
         info["json"].setdefault("dup_features", 0)
         lt = info["libtest"]
         for key, dflt in (("unpaired", 0), ("n_ok", 0), ("n_failed", 0), ("n_ignored", 0),
